@@ -1409,7 +1409,7 @@ pub fn c12(tier: &str, out: Option<&Path>) -> i32 {
 // ---------------------------------------------------------------------------
 
 pub fn c08(tier: &str, out: Option<&Path>) -> i32 {
-    use crate::common::{ClassingSpec, Config, ErrKind, GuardBuf, InitMode, Op, Res, Sut};
+    use crate::common::{ClassingSpec, Config, ErrKind, InitMode, Op, Res, Sut};
     use llfree::wrapper::ZoneAlloc;
     use llfree::{
         Alloc, Class, Error, FrameId, HUGE_FRAMES, HUGE_ORDER, Init, LLFree, MetaData, Request,
@@ -1609,9 +1609,69 @@ pub fn c08(tier: &str, out: Option<&Path>) -> i32 {
         }
     }
 
-    // ---- bad metadata buffers
+    // ---- bad metadata buffers (in a child process: accepting a misaligned buffer can abort)
     {
-        let mut ev = 0u64;
+        let exe = std::env::current_exe().expect("current exe");
+        let outp = std::process::Command::new(exe)
+            .args(["child", "c08meta", tier])
+            .output()
+            .expect("spawn child");
+        let text = String::from_utf8_lossy(&outp.stdout).to_string();
+        let mut last_case = String::new();
+        let mut done = None;
+        for l in text.lines() {
+            if let Some(c) = l.strip_prefix("CASE ") {
+                last_case = c.to_string();
+            } else if let Some(v) = l.strip_prefix("VIOL\t") {
+                let mut it = v.splitn(2, '\t');
+                let clause = it.next().unwrap_or("").to_string();
+                let detail = it.next().unwrap_or("").to_string();
+                col.lock().unwrap().add(Violation::new("C08", clause, detail.clone()), || {
+                    json!({"engine": "dom", "check": "C08-meta", "what": detail})
+                });
+            } else if let Some(n) = l.strip_prefix("DONE ") {
+                done = n.trim().parse::<u64>().ok();
+            }
+        }
+        match done {
+            Some(n) => {
+                evals.fetch_add(n, Ordering::Relaxed);
+                invalid_calls.fetch_add(n, Ordering::Relaxed);
+            }
+            None => {
+                col.lock().unwrap().add(
+                    Violation::new(
+                        "C08",
+                        "construction with bad metadata buffers crashed the process instead of returning an initialization error",
+                        format!("child exited with {:?} during: {last_case}; stderr: {}", outp.status, String::from_utf8_lossy(&outp.stderr).chars().take(300).collect::<String>()),
+                    ),
+                    || json!({"engine": "dom", "check": "C08-meta", "what": last_case}),
+                );
+            }
+        }
+    }
+    dom_finish(
+        "C08",
+        tier,
+        t0,
+        evals.load(Ordering::Relaxed),
+        invalid_calls.load(Ordering::Relaxed),
+        "states {fresh free-all, half used with a reservation, allocate-all} x 4 classings x frame counts; orders 0..=TREE_ORDER+3 x boundary frames (0,1,2^o-1,2^o,last-1,last,n-2^o,n-2^o+1,n,n+1,end of last tree, misaligned by 1, 2^o/2, 2^o-1 and by every 1..2^o-1 for o<=4) x classes 0..7 x slot {none,0} x {get, get targeted, put}; only calls that are invalid by the stated rule are issued: each must return Err(Argument) and leave all three buffers byte-identical. Zone wrapper: frames below offsets {1,3,2^20 trees}. Metadata: each buffer one byte short, shifted by 1..63 bytes, overlapping another (end, same start, nested). distinct_nontrivial = number of invalid calls issued",
+        vec![json!({"op": "put(2047,o1,C0,s-)", "frames": TREE_FRAMES, "expected": "Err(Argument), no change"})],
+        json!({}),
+        vec![],
+        col.into_inner().unwrap(),
+        out,
+    )
+}
+
+/// C08: construction over bad metadata buffers (short, misaligned, overlapping) must
+/// return an initialization error. Runs in a child process when `announce` is set (an
+/// accepted misaligned buffer can abort the process).
+pub fn c08_meta(thorough: bool, announce: bool, col: &Mutex<Collector>) -> u64 {
+    use crate::common::{ClassingSpec, GuardBuf};
+    use llfree::{Alloc, Error, HUGE_FRAMES, Init, LLFree, MetaData, TREE_FRAMES};
+    let mut ev = 0u64;
         for spec in [ClassingSpec::simple(1), ClassingSpec::movable(2)] {
             let classing = spec.build();
             for n in [HUGE_FRAMES, TREE_FRAMES + 5, 3 * TREE_FRAMES] {
@@ -1634,6 +1694,12 @@ pub fn c08(tier: &str, out: Option<&Path>) -> i32 {
                 };
                 let mut expect_init_err = |what: String, starts: [usize; 3], lens: [usize; 3]| {
                     ev += 1;
+                    if announce {
+                        // announced before the call: an abort inside the call is attributed to it
+                        println!("CASE {} frames={n}: {what}", spec.name);
+                        use std::io::Write;
+                        let _ = std::io::stdout().flush();
+                    }
                     let r = mk(starts, lens);
                     if !matches!(r, Ok(Err(Error::Initialization))) {
                         col.lock().unwrap().add(
@@ -1684,20 +1750,5 @@ pub fn c08(tier: &str, out: Option<&Path>) -> i32 {
                 }
             }
         }
-        evals.fetch_add(ev, Ordering::Relaxed);
-        invalid_calls.fetch_add(ev, Ordering::Relaxed);
-    }
-    dom_finish(
-        "C08",
-        tier,
-        t0,
-        evals.load(Ordering::Relaxed),
-        invalid_calls.load(Ordering::Relaxed),
-        "states {fresh free-all, half used with a reservation, allocate-all} x 4 classings x frame counts; orders 0..=TREE_ORDER+3 x boundary frames (0,1,2^o-1,2^o,last-1,last,n-2^o,n-2^o+1,n,n+1,end of last tree, misaligned by 1, 2^o/2, 2^o-1 and by every 1..2^o-1 for o<=4) x classes 0..7 x slot {none,0} x {get, get targeted, put}; only calls that are invalid by the stated rule are issued: each must return Err(Argument) and leave all three buffers byte-identical. Zone wrapper: frames below offsets {1,3,2^20 trees}. Metadata: each buffer one byte short, shifted by 1..63 bytes, overlapping another (end, same start, nested). distinct_nontrivial = number of invalid calls issued",
-        vec![json!({"op": "put(2047,o1,C0,s-)", "frames": TREE_FRAMES, "expected": "Err(Argument), no change"})],
-        json!({}),
-        vec![],
-        col.into_inner().unwrap(),
-        out,
-    )
+    ev
 }
